@@ -16,7 +16,8 @@ Lemma pow64_val : pow64 = 18446744073709551616. Proof. reflexivity. Qed.
 Lemma i64_min_val : i64_min = (-9223372036854775808)%Z. Proof. reflexivity. Qed.
 Lemma i64_max_val : i64_max = 9223372036854775807%Z. Proof. reflexivity. Qed.
 Lemma rle_target_val : rle_target = 32. Proof. reflexivity. Qed.
-Global Opaque pow63 pow64 i64_min i64_max rle_target.
+Lemma u64_max_val : u64_max = 18446744073709551615. Proof. reflexivity. Qed.
+Global Opaque pow63 pow64 i64_min i64_max rle_target u64_max.
 
 Lemma hleb_s_zero r : hleb_s (0 :: r) = Some (0%Z, r).
 Proof. reflexivity. Qed.
@@ -58,34 +59,48 @@ Section RleP.
   Lemma count_seg_inv st prev plit n x st' :
     count_seg st prev plit n x = Ok st' ->
     c_prev V st' = prev /\ c_plit V st' = plit /\ c_out V st' = (n, x) :: c_out V st /\
+    (c_segs V st' = 0 -> c_len V st' = 0).
+  Proof.
+    unfold Rle.count_seg.
+    destruct (c_segs V st + 1 =? rle_target) eqn:E2; intros H; inversion H; subst; cbn;
+      repeat split; lia.
+  Qed.
+
+  Lemma count_seg_full st prev plit n x st' :
+    c_len V st + n < u64_max ->
+    count_seg st prev plit n x = Ok st' ->
+    c_prev V st' = prev /\ c_plit V st' = plit /\ c_out V st' = (n, x) :: c_out V st /\
     c_len V st' + sumN (c_done V st') = c_len V st + sumN (c_done V st) + n /\
     c_len V st' <= c_len V st + n /\ (c_segs V st' = 0 -> c_len V st' = 0) /\
-    c_len V st + n < pow64.
+    c_len V st + n < u64_max.
   Proof.
-    unfold Rle.count_seg. destruct (pow64 <=? c_len V st + n) eqn:E; [discriminate|].
+    intros Hb. unfold Rle.count_seg.
+    replace (N.min (c_len V st + n) u64_max) with (c_len V st + n) by lia.
     destruct (c_segs V st + 1 =? rle_target) eqn:E2; intros H; inversion H; subst; cbn;
       unfold Rle.sumN; cbn [fold_right]; repeat split; try lia.
   Qed.
 
-  Lemma count_seg_ok st prev plit n x :
-    c_len V st + n < pow64 -> exists st', count_seg st prev plit n x = Ok st'.
+  Lemma count_seg_ok st prev plit n x : exists st', count_seg st prev plit n x = Ok st'.
   Proof.
-    intros H. unfold Rle.count_seg. assert ((pow64 <=? c_len V st + n) = false) as -> by lia.
-    destruct (c_segs V st + 1 =? rle_target); eexists; reflexivity.
+    unfold Rle.count_seg. destruct (c_segs V st + 1 =? rle_target); eexists; reflexivity.
   Qed.
 
-  Lemma count_seg_panic st prev plit n x :
-    count_seg st prev plit n x = Panic -> pow64 <= c_len V st + n.
+  Lemma finish_ok st :
+    (c_segs V st = 0 -> c_len V st = 0) -> c_len V st + sumN (c_done V st) < u64_max ->
+    finish st = Ok (rev (c_out V st)).
   Proof.
-    unfold Rle.count_seg. destruct (pow64 <=? c_len V st + n) eqn:E; [intros _; lia|].
-    destruct (c_segs V st + 1 =? rle_target); discriminate.
+    intros Hz Hs. unfold Rle.finish.
+    destruct (0 <? c_segs V st) eqn:E.
+    - cbn [Rle.sumN fold_right]. fold (sumN (c_done V st)).
+      assert ((u64_max <=? c_len V st + sumN (c_done V st)) = false) as -> by lia. reflexivity.
+    - assert (c_len V st = 0) by (apply Hz; lia).
+      assert ((u64_max <=? sumN (c_done V st)) = false) as -> by lia. reflexivity.
   Qed.
 
-  Lemma count_seg_not_err st prev plit n x : count_seg st prev plit n x <> Err.
-  Proof.
-    unfold Rle.count_seg. destruct (pow64 <=? c_len V st + n); [discriminate|].
-    destruct (c_segs V st + 1 =? rle_target); discriminate.
-  Qed.
+
+
+
+
 
   Fixpoint total (rs : list (N * option V)) : N :=
     match rs with [] => 0 | (n, _) :: t => n + total t end.
@@ -121,84 +136,52 @@ Section RleP.
 
   Lemma check_out : forall ss st st', check st ss = Ok st' ->
     c_out V st' = rev (runs_of ss) ++ c_out V st /\
-    c_len V st' + sumN (c_done V st') = c_len V st + sumN (c_done V st) + total (runs_of ss) /\
     ((c_segs V st = 0 -> c_len V st = 0) -> (c_segs V st' = 0 -> c_len V st' = 0)).
   Proof.
     induction ss as [|s t IH]; intros st st' H.
-    - cbn in H. inversion H; subst. cbn. repeat split; auto; lia.
+    - cbn in H. inversion H; subst. cbn. split; auto.
     - apply check_cons in H. destruct H as (st1 & Hs & Hc).
       apply step_inv in Hs. destruct Hs as [_ Hs].
-      apply IH in Hc. destruct Hc as (Q1 & Q2 & Q3).
-      destruct s as [n|v|n v|n]; cbn [runs_of total].
-      + subst st1. cbn in Q1, Q2, Q3 |- *. auto.
-      + apply count_seg_inv in Hs. destruct Hs as (P1 & P2 & P3 & P4 & P5 & P6 & P7).
-        rewrite Q1, P3. cbn [rev]. rewrite <- app_assoc. repeat split; auto; lia.
-      + apply count_seg_inv in Hs. destruct Hs as (P1 & P2 & P3 & P4 & P5 & P6 & P7).
-        rewrite Q1, P3. cbn [rev]. rewrite <- app_assoc. repeat split; auto; lia.
-      + apply count_seg_inv in Hs. destruct Hs as (P1 & P2 & P3 & P4 & P5 & P6 & P7).
-        rewrite Q1, P3. cbn [rev]. rewrite <- app_assoc. repeat split; auto; lia.
+      apply IH in Hc. destruct Hc as (Q1 & Q3).
+      destruct s as [n|v|n v|n]; cbn [runs_of].
+      + subst st1. cbn in Q1, Q3 |- *. auto.
+      + apply count_seg_inv in Hs. destruct Hs as (P1 & P2 & P3 & P6).
+        rewrite Q1, P3. cbn [rev]. rewrite <- app_assoc. split; auto.
+      + apply count_seg_inv in Hs. destruct Hs as (P1 & P2 & P3 & P6).
+        rewrite Q1, P3. cbn [rev]. rewrite <- app_assoc. split; auto.
+      + apply count_seg_inv in Hs. destruct Hs as (P1 & P2 & P3 & P6).
+        rewrite Q1, P3. cbn [rev]. rewrite <- app_assoc. split; auto.
   Qed.
 
-  Lemma finish_ok st :
-    (c_segs V st = 0 -> c_len V st = 0) -> c_len V st + sumN (c_done V st) < pow64 ->
-    finish st = Ok (rev (c_out V st)).
-  Proof.
-    intros Hz Hs. unfold Rle.finish.
-    destruct (0 <? c_segs V st) eqn:E.
-    - cbn [Rle.sumN fold_right]. fold (sumN (c_done V st)).
-      assert ((pow64 <=? c_len V st + sumN (c_done V st)) = false) as -> by lia. reflexivity.
-    - assert (c_len V st = 0) by (apply Hz; lia).
-      assert ((pow64 <=? sumN (c_done V st)) = false) as -> by lia. reflexivity.
-  Qed.
 
   Lemma finish_inv st rs : finish st = Ok rs -> rs = rev (c_out V st).
   Proof.
-    unfold Rle.finish. destruct (pow64 <=? _); [discriminate|]. intros H; inversion H; reflexivity.
+    unfold Rle.finish. destruct (u64_max <=? _); [discriminate|]. intros H; inversion H; reflexivity.
   Qed.
 
-  Lemma finish_panic st : (c_segs V st = 0 -> c_len V st = 0) ->
-    finish st = Panic -> pow64 <= c_len V st + sumN (c_done V st).
+
+
+
+
+  Lemma step_cases st s : step st s = Err \/ exists st1, step st s = Ok st1.
   Proof.
-    intros Hz. unfold Rle.finish. destruct (0 <? c_segs V st) eqn:E.
-    - cbn [Rle.sumN fold_right]. fold (sumN (c_done V st)).
-      destruct (pow64 <=? c_len V st + sumN (c_done V st)) eqn:E2; [lia|discriminate].
-    - destruct (pow64 <=? sumN (c_done V st)) eqn:E2; [lia|discriminate].
+    unfold Rle.step. destruct (negb (validate st s)); [auto|]. right.
+    destruct s; [eexists; reflexivity|apply count_seg_ok..].
   Qed.
 
-  Lemma total_runs_of ss : total (runs_of ss) = sumN (map (seg_items V) ss).
+  Lemma check_no_panic : forall ss st, check st ss <> Panic.
   Proof.
-    induction ss as [|s t IH]; [reflexivity|]. cbn [map Rle.sumN fold_right]. fold (sumN (map (seg_items V) t)).
-    destruct s; cbn [runs_of total Rle.seg_items]; lia.
+    induction ss as [|s t IH]; intros st; [discriminate|]. cbn [Rle.check].
+    destruct (step_cases st s) as [-> | [st1 ->]]; cbn [bind]; [discriminate|apply IH].
   Qed.
 
-  Lemma check_panic : forall ss st, check st ss = Panic ->
-    pow64 <= c_len V st + sumN (map (seg_items V) ss).
+  Theorem rle_load_no_panic b : rle_load b <> Panic.
   Proof.
-    induction ss as [|s t IH]; intros st H; [discriminate|].
-    cbn [Rle.check] in H. cbn [map Rle.sumN fold_right]. fold (sumN (map (seg_items V) t)).
-    destruct (step st s) as [st1| |] eqn:Es; cbn [bind] in H; try discriminate.
-    - apply IH in H. apply step_inv in Es. destruct Es as [_ Es].
-      destruct s; cbn [Rle.seg_items].
-      + subst st1. cbn in H. lia.
-      + apply count_seg_inv in Es. lia.
-      + apply count_seg_inv in Es. lia.
-      + apply count_seg_inv in Es. lia.
-    - unfold Rle.step in Es. destruct (negb (validate st s)); [discriminate|].
-      destruct s; cbn [Rle.seg_items]; try discriminate; apply count_seg_panic in Es; lia.
-  Qed.
-
-  Theorem rle_load_panic b :
-    rle_load b = Panic ->
-    has_min_header V dec b = true \/ pow64 <= declared_items V dec b.
-  Proof.
-    unfold Rle.rle_load, Rle.rle_load_segs, Rle.has_min_header, Rle.declared_items.
-    destruct (Rle.raw_parse V dec (S (length b)) 0 b) as [ss t] eqn:Ep. cbn [fst snd].
-    destruct (check (cst_init V) ss) as [st| |] eqn:Ec; cbn [bind]; try discriminate.
-    - destruct t; try discriminate; [|auto]. intros Hp. right.
-      destruct (check_out _ _ _ Ec) as (_ & Q2 & Q3).
-      apply finish_panic in Hp; [|apply Q3; reflexivity].
-      rewrite Q2 in Hp. cbn in Hp. rewrite total_runs_of in Hp. lia.
-    - intros _. right. apply check_panic in Ec. cbn in Ec. lia.
+    unfold Rle.rle_load, Rle.rle_load_segs.
+    destruct (Rle.raw_parse V dec (S (length b)) 0 b) as [ss t].
+    pose proof (check_no_panic ss (cst_init V)) as H.
+    destruct (check (cst_init V) ss) as [st| |]; cbn [bind]; [|discriminate|congruence].
+    destruct t; [|discriminate]. unfold Rle.finish. destruct (u64_max <=? _); discriminate.
   Qed.
 
   (* ---- the codec laws ---- *)
@@ -261,7 +244,7 @@ Section RleP.
           | Some (v, r') => let (ss, t) := raw_parse fuel 0 r' in (RRun (Z.to_N n) v :: ss, t)
           end
         else if (n <? 0)%Z then
-          if (n =? i64_min)%Z then ([], TPanic)
+          if (n =? i64_min)%Z then ([], TErr)
           else let (ss, t) := raw_parse fuel (Z.to_N (- n)) r in (RHead (Z.to_N (- n)) :: ss, t)
         else
           match hleb_u r with
@@ -388,7 +371,7 @@ Section RleP.
 
   (* C: the canonical segments of a canonical run list pass the loader's checks *)
   Lemma check_canon : forall rs st pv inlit,
-    canon pv rs -> st_ok st pv inlit -> c_len V st + total rs < pow64 ->
+    canon pv rs -> st_ok st pv inlit -> c_len V st + total rs < u64_max ->
     (c_segs V st = 0 -> c_len V st = 0) ->
     exists st', check st (segs_aux inlit rs) = Ok st' /\
       c_out V st' = rev rs ++ c_out V st /\
@@ -418,9 +401,9 @@ Section RleP.
                 destruct (veqb p v) eqn:E; [apply veqb_spec in E; subst; congruence|reflexivity].
               - apply differs_of. congruence. }
             rewrite Hval. cbn [negb].
-            destruct (count_seg_ok st0 (PLit v) (Some v) 1 (Some v)) as [st1 Hs1]; [lia|].
+            destruct (count_seg_ok st0 (PLit v) (Some v) 1 (Some v)) as [st1 Hs1].
             rewrite Hs1. cbn [bind].
-            destruct (count_seg_inv _ _ _ _ _ _ Hs1) as (P1 & P2 & P3 & P4 & P5 & P6 & P7).
+            pose proof Hs1 as Hs1'. apply count_seg_full in Hs1'; [|lia]. destruct Hs1' as (P1 & P2 & P3 & P4 & P5 & P6 & P7).
             destruct (IH st1 (Some (Some v)) true Hc) as (st' & Q1 & Q2 & Q3 & Q4).
             { split; [rewrite P1; reflexivity|]. exists v. auto. }
             { lia. }
@@ -441,9 +424,9 @@ Section RleP.
         * apply N.eqb_neq in En. cbn [Rle.check]. unfold Rle.step at 1. unfold Rle.validate.
           assert ((2 <=? n) = true) as -> by lia.
           rewrite differs_of by (rewrite Hlast; exact Hpv). cbn [andb negb].
-          destruct (count_seg_ok st (PRun v) (c_plit V st) n (Some v)) as [st1 Hs1]; [lia|].
+          destruct (count_seg_ok st (PRun v) (c_plit V st) n (Some v)) as [st1 Hs1].
           rewrite Hs1. cbn [bind].
-          destruct (count_seg_inv _ _ _ _ _ _ Hs1) as (P1 & P2 & P3 & P4 & P5 & P6 & P7).
+          pose proof Hs1 as Hs1'. apply count_seg_full in Hs1'; [|lia]. destruct Hs1' as (P1 & P2 & P3 & P4 & P5 & P6 & P7).
           destruct (IH st1 (Some (Some v)) false Hc) as (st' & Q1 & Q2 & Q3 & Q4).
           { split; [rewrite P1; reflexivity|]. intros w. rewrite P1. discriminate. }
           { lia. }
@@ -456,9 +439,9 @@ Section RleP.
         assert ((match c_prev V st with PNull => false | _ => true end) = true) as ->.
         { destruct (c_prev V st); auto; cbn in Hlast; congruence. }
         replace (negb (negb false && true && nullable)) with false by (rewrite (Hnull eq_refl); reflexivity).
-        destruct (count_seg_ok st PNull (c_plit V st) n None) as [st1 Hs1]; [lia|].
+        destruct (count_seg_ok st PNull (c_plit V st) n None) as [st1 Hs1].
         rewrite Hs1. cbn [bind].
-        destruct (count_seg_inv _ _ _ _ _ _ Hs1) as (P1 & P2 & P3 & P4 & P5 & P6 & P7).
+        pose proof Hs1 as Hs1'. apply count_seg_full in Hs1'; [|lia]. destruct Hs1' as (P1 & P2 & P3 & P4 & P5 & P6 & P7).
         destruct (IH st1 (Some None) false Hc) as (st' & Q1 & Q2 & Q3 & Q4).
         { split; [rewrite P1; reflexivity|]. intros w. rewrite P1. discriminate. }
         { lia. }
@@ -694,12 +677,12 @@ Section RleP.
     rewrite parse_write.
     - unfold Rle.rle_load_segs.
       destruct (check_canon rs (cst_init V) None false Hc st_ok_init) as (st' & Q1 & Q2 & Q3 & Q4).
-      { cbn. rewrite pow63_val in Ht. rewrite pow64_val. lia. }
+      { cbn. rewrite pow63_val in Ht. rewrite u64_max_val. lia. }
       { reflexivity. }
       rewrite Q1. cbn [bind]. rewrite finish_ok.
       + rewrite Q2. cbn [Rle.cst_init Rle.c_out]. rewrite app_nil_r, rev_involutive. reflexivity.
       + exact Q4.
-      + rewrite Q3. cbn. rewrite pow63_val in Ht. rewrite pow64_val. lia.
+      + rewrite Q3. cbn. rewrite pow63_val in Ht. rewrite u64_max_val. lia.
     - apply (segs_framed rs false Hok Ht).
     - pose proof (write_segs_length (segs_aux false rs)). lia.
   Qed.
@@ -732,7 +715,7 @@ Section RleP.
     destruct t; try discriminate. intros Hfin.
     apply finish_inv in Hfin.
     pose proof (parse_framed _ _ _ _ Hwf Ep) as Hf.
-    destruct (check_out _ _ _ Ec) as (Q1 & _ & _).
+    destruct (check_out _ _ _ Ec) as (Q1 & _).
     rewrite Q1 in Hfin. cbn [Rle.cst_init Rle.c_out] in Hfin. rewrite app_nil_r, rev_involutive in Hfin.
     destruct (check_canonical ss (cst_init V) 0 st None Hf Ec) as (E1 & _ & C).
     { split; [reflexivity|]. lia. }
